@@ -40,6 +40,7 @@ from spyne.util.six.moves.urllib.parse import unquote, quote
 from spyne.application import get_fault_string_from_exception
 from spyne.auxproc import process_contexts
 from spyne.error import RequestTooLongError
+from spyne.error import ValidationError
 from spyne.protocol.http import HttpRpc
 from spyne.server.http import HttpBase, HttpMethodContext, HttpTransportContext
 from spyne.util.odict import odict
@@ -591,7 +592,11 @@ class WsgiApplication(HttpBase):
         if len(length) == 0:
             length = 0
         else:
-            length = int(length)
+            try:
+                length = int(length)
+            except ValueError:
+                raise ValidationError(length[:64],
+                                       "Content-Length %r is not a number")
 
         if length > self.max_content_length:
             raise RequestTooLongError()
